@@ -99,6 +99,8 @@ type history struct {
 	Cfg   config    `json:"cfg"`
 	Specs []modSpec `json:"specs"`
 	Steps []step    `json:"steps"`
+	// Stress, if set, makes this case a concurrent stress run instead of a step history.
+	Stress *stressCase `json:"stress,omitempty"`
 }
 
 type obs struct {
@@ -225,7 +227,9 @@ func (w *world) compile(rt, spec int) (o obs) {
 		w.cms = append(w.cms, nil)
 		return obs{Out: wz.Outcome{Kind: wz.KOther, Detail: "skipped: runtime dropped"}}
 	}
+	wdEnter("CompileModule", -1, fmt.Sprintf("rt%d spec%d", rt, spec))
 	cm, err := w.rts[rt].CompileModule(w.ctx, w.bins[spec])
+	wdLeave()
 	if err != nil {
 		w.cms = append(w.cms, nil)
 		return obs{Out: wz.Classify(err)}
@@ -263,7 +267,9 @@ func (w *world) instantiate(cm int, name string) (o obs) {
 		}
 	}()
 	c := w.cms[cm]
+	wdEnter("InstantiateModule", len(w.insts), name)
 	mod, err := w.rts[c.rt].InstantiateModule(w.instCtx(c.rt), c.cm, w.modCfg(name))
+	wdLeave()
 	if err != nil {
 		w.insts = append(w.insts, nil)
 		return obs{Out: wz.Classify(err)}
@@ -279,7 +285,9 @@ func (w *world) instBytes(rt, spec int, name string) (o obs) {
 			w.insts = append(w.insts, nil)
 		}
 	}()
+	wdEnter("InstantiateWithConfig", len(w.insts), name)
 	mod, err := w.rts[rt].InstantiateWithConfig(w.instCtx(rt), w.bins[spec], w.modCfg(name))
+	wdLeave()
 	if err != nil {
 		w.insts = append(w.insts, nil)
 		return obs{Out: wz.Classify(err)}
@@ -314,7 +322,9 @@ func (w *world) call(inst int, name string, args ...uint64) (o obs) {
 	if f == nil {
 		return obs{Out: wz.Outcome{Kind: wz.KOther, Detail: "harness: no export " + name}}
 	}
+	wdEnter("Call", inst, name)
 	res, err := f.Call(w.ctx, args...)
+	wdLeave()
 	return obs{Res: res, Out: wz.Classify(err), Trace: traceOf(err)}
 }
 
@@ -404,7 +414,10 @@ func (w *world) closeInst(inst int) (o obs) {
 	}()
 	ih := w.insts[inst]
 	ih.closed = true
-	return obs{Out: wz.Classify(ih.mod.Close(w.ctx))}
+	wdEnter("Module.Close", inst, "")
+	err := ih.mod.Close(w.ctx)
+	wdLeave()
+	return obs{Out: wz.Classify(err)}
 }
 
 func (w *world) closeCM(cm int) (o obs) {
@@ -413,7 +426,10 @@ func (w *world) closeCM(cm int) (o obs) {
 			o = obs{Out: classifyPanic(r)}
 		}
 	}()
-	return obs{Out: wz.Classify(w.cms[cm].cm.Close(w.ctx))}
+	wdEnter("CompiledModule.Close", cm, "")
+	err := w.cms[cm].cm.Close(w.ctx)
+	wdLeave()
+	return obs{Out: wz.Classify(err)}
 }
 
 func (w *world) closeRT(rt int) (o obs) {
@@ -428,7 +444,10 @@ func (w *world) closeRT(rt int) (o obs) {
 			ih.closed = true
 		}
 	}
-	return obs{Out: wz.Classify(w.rts[rt].Close(w.ctx))}
+	wdEnter("Runtime.Close", rt, "")
+	err := w.rts[rt].Close(w.ctx)
+	wdLeave()
+	return obs{Out: wz.Classify(err)}
 }
 
 func (w *world) closeCache() (o obs) {
@@ -437,7 +456,10 @@ func (w *world) closeCache() (o obs) {
 			o = obs{Out: classifyPanic(r)}
 		}
 	}()
-	return obs{Out: wz.Classify(w.cache.Close(w.ctx))}
+	wdEnter("CompilationCache.Close", -1, "")
+	err := w.cache.Close(w.ctx)
+	wdLeave()
+	return obs{Out: wz.Classify(err)}
 }
 
 // shutdown releases everything at the end of a history.
@@ -447,7 +469,9 @@ func (w *world) shutdown() {
 	}
 	for i, rt := range w.rts {
 		if rt != nil && w.rtOpen[i] {
+			wdEnter("Runtime.Close at the end of the history", i, "")
 			rt.Close(w.ctx)
+			wdLeave()
 		}
 	}
 	if w.cache != nil && !w.cacheClosed {
